@@ -73,7 +73,7 @@ def check(ctx, res) -> None:
     yield_counter_rule(ctx, res, "R17.4")
     cr = idx.need_func("rope.refactor.usefunction.UseFunction._check_returns")
     from .common import inline_private_calls
-    cfg = CFG(inline_private_calls(idx, cr))  # the check may be split into private steps
+    cfg = CFG(inline_private_calls(idx, cr, keep=("_yield_count",)))  # the check may be split into private steps (the counter itself stays a call)
     ok = False
     for n in cfg.nodes:
         if n.kind == "stmt" and isinstance(n.ast, ast.Raise) and "RefactoringError" in ast.unparse(n.ast):
